@@ -103,4 +103,118 @@ theorem queriesParse_new {e : Codec ε} {d : Codec δ} (he : e.RT) (hd : d.RT) (
         rw [if_neg (by omega)]
         simp [hdes]
 
+-- Commitments::new / Commitments::parse ---------------------------------------------------------
+
+theorem runAll_ok {d : Dec α} {bs : Bytes} {x : α} (h : d bs = .ok (x, [])) : runAll d bs = .ok x := by
+  simp [runAll, h]
+
+theorem commitmentsParse_new {d : Codec δ} (hd : d.RT) (t : List δ) (c : δ) (f : List δ) (hf : f ≠ [])
+    (ht : t.all d.wf = true) (hc : d.wf c = true) (hfw : f.all d.wf = true) :
+    commitmentsParse d (commitmentsNew d t c f) t.length (f.length - 1) = .ok (t, c, f) := by
+  have hlen : f.length - 1 + 1 = f.length := by
+    cases f with
+    | nil => exact absurd rfl hf
+    | cons x xs => simp
+  have h3 := readMany_rt hd hfw []
+  simp only [List.append_nil] at h3
+  unfold commitmentsParse
+  apply runAll_ok
+  simp only [commitmentsNew, hlen, List.append_assoc, bind_apply, readMany_rt hd ht, rt_dec hd hc]
+  have : d.dec (d.enc c ++ encMany d f) = .ok (c, encMany d f) := rt_dec hd hc _
+  simp [this, h3]
+
+-- OodFrame setters / OodFrame::parse ------------------------------------------------------------
+
+theorem interleave_length (a b : List α) (h : a.length = b.length) : (interleave a b).length = a.length * 2 := by
+  induction a generalizing b with
+  | nil => cases b <;> simp [interleave]
+  | cons x xs ih =>
+    cases b with
+    | nil => simp at h
+    | cons y ys =>
+      simp only [List.length_cons, Nat.add_right_cancel_iff] at h
+      simp only [interleave, List.length_cons, ih ys h]; omega
+
+theorem interleave_all (p : α → Bool) (a b : List α) (ha : a.all p = true) (hb : b.all p = true) :
+    (interleave a b).all p = true := by
+  induction a generalizing b with
+  | nil => cases b <;> simp [interleave]
+  | cons x xs ih =>
+    cases b with
+    | nil => simp [interleave]
+    | cons y ys =>
+      simp only [List.all_cons, Bool.and_eq_true] at ha hb
+      simp [interleave, ha.1, hb.1, ih ys ha.2 hb.2]
+
+theorem deinterleave_interleave (a b : List α) (h : a.length = b.length) :
+    deinterleave (interleave a b) = (a, b) := by
+  induction a generalizing b with
+  | nil => cases b <;> simp [interleave, deinterleave] at h ⊢
+  | cons x xs ih =>
+    cases b with
+    | nil => simp at h
+    | cons y ys =>
+      simp only [List.length_cons, Nat.add_right_cancel_iff] at h
+      simp [interleave, deinterleave, ih ys h]
+
+/-- `set_trace_states` + `set_constraint_evaluations`, then `OodFrame::parse` with the widths the frame was
+    built for, give back the rows, the Lagrange kernel frame (when it is not empty) and the evaluations -/
+theorem oodParse_set {e : Codec ε} (he : e.RT) (cur next : List ε) (lag : Option (List ε)) (evals : List ε)
+    (main : Nat) (ts l eb : Bytes)
+    (h1 : oodSetTraceStates e cur next lag = some (ts, l)) (h2 : oodSetEvaluations e evals = some eb)
+    (hmain : 0 < main) (hw : main ≤ cur.length)
+    (hcur : cur.all e.wf = true) (hnext : next.all e.wf = true)
+    (hlag : (lag.getD []).all e.wf = true) (hev : evals.all e.wf = true) :
+    oodParse e ⟨ts, l, eb⟩ main (cur.length - main + (if (lag.getD []).isEmpty then 0 else 1)) evals.length =
+      .ok (cur, next, (if (lag.getD []).isEmpty then none else some (lag.getD [])), evals) := by
+  -- what the setters stored
+  unfold oodSetTraceStates at h1
+  split at h1
+  · cases h1
+  · rename_i hlen
+    simp only [bne_iff_ne, ne_eq, Decidable.not_not] at hlen
+    simp only [] at h1
+    split at h1
+    · cases h1
+    · rename_i hc
+      simp only [not_or, Nat.not_le, Nat.not_lt] at hc
+      simp only [Option.some.injEq, Prod.mk.injEq] at h1
+      obtain ⟨rfl, rfl⟩ := h1
+      unfold oodSetEvaluations at h2
+      simp only [] at h2
+      split at h2
+      · cases h2
+      · rename_i hc2
+        simp only [not_or, List.isEmpty_iff, Nat.not_lt] at hc2
+        cases h2
+        have hne : evals.length ≠ 0 := by
+          intro h0; exact hc2.1 (List.eq_nil_of_length_eq_zero h0)
+        have hLmod : (lag.getD []).length % 256 = (lag.getD []).length := Nat.mod_eq_of_lt (by omega)
+        have hLag := readMany_rt he hlag []
+        have hTr := readMany_rt he (interleave_all e.wf cur next hcur hnext) []
+        have hEv := readMany_rt he hev []
+        simp only [List.append_nil] at hLag hTr hEv
+        rw [interleave_length cur next hlen] at hTr
+        unfold oodParse
+        rw [if_neg (by omega)]
+        simp only [hLmod, bind_apply, readU8_cons]
+        by_cases hL : (lag.getD []).isEmpty = true
+        · have hL0 : (lag.getD []).length = 0 := by simpa [List.isEmpty_iff] using hL
+          simp only [hL, if_true, hL0, Nat.lt_irrefl, if_false, pure_apply, Option.isSome_none, Bool.false_eq_true,
+            Nat.add_zero, Nat.sub_zero]
+          rw [if_neg (by omega)]
+          have : main + (cur.length - main) = cur.length := by omega
+          simp [runAll, readU8_cons, this, hTr, hEv, deinterleave_interleave cur next hlen]
+        · have hLpos : (lag.getD []).length > 0 := by
+            cases hg : lag.getD [] with
+            | nil => simp [hg] at hL
+            | cons x xs => simp
+          have hLf : (lag.getD []).isEmpty = false := by simpa using hL
+          simp only [hLf, Bool.false_eq_true, if_false, hLpos, if_true, bind_apply, hLag, pure_apply,
+            Option.isSome_some]
+          rw [if_neg (by omega)]
+          have : main + (cur.length - main + 1 - 1) = cur.length := by omega
+          simp only [this]
+          simp [runAll, readU8_cons, hTr, hEv, deinterleave_interleave cur next hlen]
+
 end WinterProofs.C12L
